@@ -384,8 +384,8 @@ class FaultPlan(object):
         self.persist = []
         self.act = {}
         if spec:
-            for k, x in spec.get("act", ()):
-                self.act[k] = x
+            for ent in spec.get("act", ()):
+                self.act[ent[0]] = tuple(ent[1:])
             for ent in spec.get("once", ()):
                 k, exc = ent[0], ent[1]
                 kinds = ent[2] if len(ent) > 2 else None
@@ -479,10 +479,13 @@ class World(object):
         if self.plan.act:
             # a hook that changes the tree itself: it detaches some *other* node (e.g. a class that
             # keeps child names unique evicts the same-named sibling in _pre_attach)
-            x = self.plan.act.pop(k, None)
-            if x is not None and self.nodes[x] is not node:
-                self.acted.append((k, x))
-                self.nodes[x].parent = None
+            act = self.plan.act.pop(k, None)
+            if act is not None and self.nodes[act[0]] is not node:
+                x = act[0]
+                y = act[1] if len(act) > 1 else None
+                self.acted.append((k, x) if y is None else (k, x, y))
+                # (an exception from this nested assignment is an exception raised by the hook)
+                self.nodes[x].parent = None if y is None else self.nodes[y]
         if self.hook_reads:
             # a hook that looks at the tree (logging, validation, capacity checks ...)
             others = (arg,) if kind in PARENT_HOOKS else tuple(arg)[:2]
